@@ -178,10 +178,10 @@ theorem trap1_PL (a b : Rat) (hab : a < b) {k l : Nat} (hkl : k ≤ l) (bd : Boo
 /-! ## tensor rule of a product function -/
 
 /-- the product of the 1-D rules -/
-def trapProd (bd : Bool) : List Rat → List Rat → List Int → List (Rat → Rat) → Rat
-  | [], [], [], [] => 1
-  | a :: as, b :: bs, l :: ls, u :: us => trap1 a b l.toNat bd u * trapProd bd as bs ls us
-  | _, _, _, _ => 0
+def trapProd : Flags → List Rat → List Rat → List Int → List (Rat → Rat) → Rat
+  | _, [], [], [], [] => 1
+  | bd, a :: as, b :: bs, l :: ls, u :: us => trap1 a b l.toNat (bd 0) u * trapProd bd.tl as bs ls us
+  | _, _, _, _, _ => 0
 
 theorem foldl_mul_init (ws : List Rat) (w : Rat) : ws.foldl (· * ·) w = w * ws.foldl (· * ·) 1 := by
   induction ws generalizing w with
@@ -219,15 +219,15 @@ theorem quad_inner (u : Rat → Rat) (us : List (Rat → Rat)) (x w : Rat) : ∀
       ring
 
 /-- the tensor rule of a product function is the product of the 1-D rules -/
-theorem quadGrid_tprod (bd : Bool) : ∀ (a b : List Rat) (lv : List Int) (us : List (Rat → Rat)),
+theorem quadGrid_tprod : ∀ (bd : Flags) (a b : List Rat) (lv : List Int) (us : List (Rat → Rat)),
     a.length = lv.length → b.length = lv.length → us.length = lv.length →
     quadGrid a b lv bd (tprod us) = trapProd bd a b lv us
-  | [], [], [], [], _, _, _ => by simp [quadGrid, gridPoints, gridWeights, gridAxes, weightAxes, cross, tprod, trapProd]
-  | a :: as, b :: bs, l :: ls, u :: us, ha, hb, hu => by
-      have ih := quadGrid_tprod bd as bs ls us (by simpa using ha) (by simpa using hb) (by simpa using hu)
-      have hcl : (cross (gridAxes as bs ls bd)).length = (cross (weightAxes as bs ls bd)).length := by
-        rw [cross_length, cross_length, gridAxes_map_length bd as bs ls (by simpa using ha) (by simpa using hb),
-          weightAxes_map_length bd as bs ls (by simpa using ha) (by simpa using hb)]
+  | bd, [], [], [], [], _, _, _ => by simp [quadGrid, gridPoints, gridWeights, gridAxes, weightAxes, cross, tprod, trapProd]
+  | bd, a :: as, b :: bs, l :: ls, u :: us, ha, hb, hu => by
+      have ih := quadGrid_tprod bd.tl as bs ls us (by simpa using ha) (by simpa using hb) (by simpa using hu)
+      have hcl : (cross (gridAxes as bs ls bd.tl)).length = (cross (weightAxes as bs ls bd.tl)).length := by
+        rw [cross_length, cross_length, gridAxes_map_length bd.tl as bs ls (by simpa using ha) (by simpa using hb),
+          weightAxes_map_length bd.tl as bs ls (by simpa using ha) (by simpa using hb)]
       unfold quadGrid gridPoints gridWeights at ih ⊢
       simp only [gridAxes, weightAxes, cross, trapProd]
       rw [List.map_flatMap]
@@ -236,11 +236,11 @@ theorem quadGrid_tprod (bd : Bool) : ∀ (a b : List Rat) (lv : List Int) (us : 
       rw [← ih]
       simp only [quad_inner]
       rw [zipWith_sum_mul_right (fun x w => u x * w)]
-  | [], _ :: _, [], _, _, hb, _ => by simp at hb
-  | _ :: _, _, [], _, ha, _, _ => by simp at ha
-  | [], _, _ :: _, _, ha, _, _ => by simp at ha
-  | _ :: _, [], _ :: _, _, _, hb, _ => by simp at hb
-  | _, _, [], _ :: _, _, _, hu => by simp at hu
-  | _, _, _ :: _, [], _, _, hu => by simp at hu
+  | bd, [], _ :: _, [], _, _, hb, _ => by simp at hb
+  | bd, _ :: _, _, [], _, ha, _, _ => by simp at ha
+  | bd, [], _, _ :: _, _, ha, _, _ => by simp at ha
+  | bd, _ :: _, [], _ :: _, _, _, hb, _ => by simp at hb
+  | bd, _, _, [], _ :: _, _, _, hu => by simp at hu
+  | bd, _, _, _ :: _, [], _, _, hu => by simp at hu
 
 end SparseSpace
